@@ -125,6 +125,11 @@ def cases(tier, seed):
             for bi in range(2):
                 for pad in (2, 3):
                     out.append({"key": f"midcycle/u={ui}/s={si}/b={bi}/pad={pad}", "cls": "midcycle", "n": 2 + pad, "scale": 1.0, "u": ui, "s": list(sv_), "b": bi, "pad": pad})
+    # first cycle stagnates only up to rounding: Hermitian indefinite A with a symmetric +- spectrum (not in diagonal form) and b with equal
+    # weight on each +- pair, so <b, A b> = 0 up to rounding and the first residual is 1 +- 1 ulp; the solver must go on and solve the system
+    for n in (2, 4, 6):
+        for v in range(16):
+            out.append({"key": f"stagnate/n={n}/v={v}", "cls": "stagnate", "n": n, "scale": 1.0, "v": v})
     # fault injection on the path the property names ("lucky breakdown at any Arnoldi step"): the Arnoldi remainder norm of exactly one
     # (cycle m, step j) is replaced by 0 although the Krylov space is NOT invariant; every position is enumerated.  Whatever the solver
     # then returns, the record must tell the truth about it.
@@ -213,6 +218,19 @@ def build(case, seed):
             if not b.any():
                 b[0, 0, 0] = 1.0
         bs.append((case["rhs"], b))
+    elif cls == "stagnate":
+        lam = [3.0, -3.0, 5.0, -5.0, 2.0, -2.0][:n]
+        fv = G.Fill(seed, stream=hash_tag(f"stagnate/{n}/{case['v']}"))
+        V = G.unitary("hh", n, fv, variant=case["v"])
+        A = O.qmatmul(O.qmatmul(V, G.diag_real(lam, n, n)), O.qH(V))
+        A = 0.5 * (A + O.qH(A))
+        w = np.zeros((n, 1, 4))
+        for t in range(0, n, 2):
+            ph = G.SIGNED_UNITS[(case["v"] + t) % 8].astype(float)
+            w[t, 0] = ph
+            w[t + 1, 0] = ph  # equal modulus on the two members of a +- pair
+        b = O.qmatmul(V, w)
+        bs.append(("pm_pairs", b))
     elif cls == "neareig":
         lam = [0.01, 1.0, 2.0, -1.5][:n]
         V = G.unitary(case["kind"], n, fill, variant=n)
